@@ -244,6 +244,7 @@ def hyp_search(ctx, col, strategy, execute, seed, max_examples, shrink=True):
             out = execute(spec)
         except BaseException:
             state['harness'] = True
+            state['tb'] = f'spec={canon(spec)[:2000]}\n' + traceback.format_exc()
             raise
         unknown = judge(ctx, col, spec, out)
         if unknown:
@@ -254,7 +255,9 @@ def hyp_search(ctx, col, strategy, execute, seed, max_examples, shrink=True):
     try:
         t()
     except BaseException:
-        if state['harness'] or not last:
+        if state['harness']:
+            raise HarnessError('exception inside the harness/oracle while executing a generated case:\n' + state.get('tb', ''))
+        if not last:
             raise
         col.violation(last['spec'], last['v'])
 
